@@ -1,4 +1,5 @@
 import Gv.Basic
+import Gv.Spec.Genetic
 /-!
 Naive definitions of the column statistics of property C14, written independently of the model
 (`Gv.Model.Stats`): plain recounts over `List (String × List UInt8)`; no loops, no accumulators, no
@@ -224,5 +225,51 @@ def mutationListVsRef (alphabet : Nat) (s ref : Seq) : Option (List (Byte × Nat
       some (mutationList 78 ((s.zip ref).map fun p => (p.1, p.2, compatible (basesOf p.1) (basesOf p.2))))
     else none
   else some (mutationList 88 ((s.zip ref).map fun p => (p.1, p.2, p.1 == p.2)))
+
+/-! ### codon-wise differences with a reference sequence (`--aa`) -/
+
+/-- what the query shows in a window of columns: `-` when it holds only gaps, `/` when the number of its residues is
+not a multiple of three (a possible frameshift), else the amino acids of its residues read three by three -/
+def aaAlt (tr : Byte → Byte → Byte → Byte) (q : Seq) : List Byte :=
+  let t := q.filter (· != 45)
+  if t.length = 0 then [45] else if t.length % 3 ≠ 0 then [47]
+  else (List.range (t.length / 3)).map fun k => tr (t.getD (3 * k) 0) (t.getD (3 * k + 1) 0) (t.getD (3 * k + 2) 0)
+
+/-- columns `i … j` -/
+def window (s : Seq) (i j : Nat) : Seq := (s.drop i).take (j + 1 - i)
+
+/-- the columns of the reference that hold a residue, from left to right -/
+def resCols (ref : Seq) : List Nat := (List.range ref.length).filter fun i => ref.getD i 45 != 45
+
+/-- the entries in front of and at reference codon `k` (residues `3k, 3k+1, 3k+2` of the reference; `k` = the number of
+complete codons stands for what follows the last one).  The run of reference gaps that starts right after codon
+`k − 1` is read three columns at a time (a possible insertion of one amino acid after codon `k − 1`: reference `-`,
+position `k − 1`, hence −1 in front of the first codon; the `run mod 3` columns left over are not looked at); codon `k`
+itself spans the columns from its first to its third residue.  An entry is listed exactly when what the query shows is
+not the reference amino acid alone. -/
+def aaMutationsAt (tr : Byte → Byte → Byte → Byte) (s ref : Seq) (k : Nat) : List (Byte × Int × List Byte) :=
+  let cols := resCols ref
+  let e := if k = 0 then 0 else cols.getD (3 * k - 1) 0 + 1
+  let run := ((ref.drop e).takeWhile (· == 45)).length
+  let ins := (List.range (run / 3)).filterMap fun t =>
+    let alt := aaAlt tr (window s (e + 3 * t) (e + 3 * t + 2))
+    if alt = [45] then none else some ((45 : Byte), (k : Int) - 1, alt)
+  let codon :=
+    if 3 * k + 2 < cols.length then
+      let i := cols.getD (3 * k) 0
+      let j := cols.getD (3 * k + 2) 0
+      let refaa := tr (ref.getD i 0) (ref.getD (cols.getD (3 * k + 1) 0) 0) (ref.getD j 0)
+      let alt := aaAlt tr (window s i j)
+      if alt = [refaa] then [] else [(refaa, (k : Int), alt)]
+    else []
+  ins ++ codon
+
+/-- `ListMutationsComparedToReferenceSequence(alphabet, ref, true)`: the reference is read codon by codon (its residues
+three by three, whatever gaps lie between them), translated with the standard genetic code (NCBI table 1).
+Error: different lengths, an alphabet other than nucleotides. -/
+def aaMutations (alphabet : Nat) (s ref : Seq) : Option (List (Byte × Int × List Byte)) :=
+  if s.length ≠ ref.length then none
+  else if alphabet ≠ 1 then none
+  else some ((List.range ((resCols ref).length / 3 + 1)).flatMap (aaMutationsAt (translateCodon ncbi1) s ref))
 
 end Gv.Spec
